@@ -471,7 +471,9 @@ Proc(e) ==
                       ELSE {}
             IN [base EXCEPT !.fails = sf \cup stepf \cup bf \cup nf,
                             !.drift = IF ~IsNone(pred) /\ pred # S THEN ToJson(DiffS(pred, S)) ELSE "",
-                            !.st = Set(st, m, S), !.last = Set(last, m, S),
+                            \* the design layer is advanced only from a sound state (its operators are partial on
+                            \* corrupt structures); an unsound logged state stops the prediction until the next one
+                            !.st = Set(st, m, IF sf \ {"C05.content", "C07.n"} = {} THEN S ELSE NoneS), !.last = Set(last, m, S),
                             !.aux = [aux EXCEPT !.peak = Set(aux.peak, m, pk), !.since = Set(aux.since, m, <<0, 0>>)],
                             !.tally = IF one /\ ChainsOKD(P, DP) /\ ChainsOKD(S, D) THEN Tally(P, DP, S, D, sinc[2]) ELSE <<>>]
       [] e.ev = "stats" ->
@@ -506,7 +508,7 @@ Proc(e) ==
                 D == Derive(S)
             IN [base EXCEPT !.mem = Set(mem, m, IF ChainsOKD(S, D) /\ ValRefsOKD(S, D) THEN AbsMapD(S, D) ELSE Unknown),
                             !.meta = Set(meta, m, [kt |-> e.kt, n |-> e.n, dir |-> e.dir, foreign |-> FALSE, open |-> FALSE]),
-                            !.st = Set(st, m, S), !.last = Set(last, m, S),
+                            !.st = Set(st, m, IF StateFails(e.st, S, D, "-") = {} THEN S ELSE NoneS), !.last = Set(last, m, S),
                             !.aux = [aux EXCEPT !.dur = Set(aux.dur, m, TRUE), !.synced = Set(aux.synced, m, FALSE),
                                                 !.peak = Set(aux.peak, m, NoPeak), !.since = Set(aux.since, m, <<0, 0>>)]]
       [] e.ev = "load" ->
@@ -552,7 +554,8 @@ Next ==
        ELSE IF e.ev = "aborted" THEN UNCHANGED <<mem, meta, st, last, aux, nfail>> /\ skip' = TRUE
        ELSE IF e.outcome \in {"panic", "hang"} /\ ~(e.ev \in {"map", "child_dump"})
        THEN \* the call did not return: C01.outcome (attributed by the check to its own property)
-            /\ PrintT(<<"VERDICT", ToJson([l |-> l + 1, i |-> Fld(e, "i", -1), hist |-> aux.hist, conj |-> {"C01.outcome"},
+            /\ PrintT(<<"VERDICT", ToJson([l |-> l + 1, i |-> Fld(e, "i", -1), hist |-> aux.hist,
+                                           conj |-> IF e.ev = "stats" THEN {"C01.outcome", "C06.stats_terminate"} ELSE {"C01.outcome"},
                                            ev |-> e.ev, outcome |-> e.outcome, msg |-> Fld(e, "msg", "-"), m |-> Fld(e, "m", "-"), tag |-> Fld(e, "tag", "-")])>>)
             /\ skip' = TRUE /\ nfail' = nfail + 1
             /\ UNCHANGED <<mem, meta, st, last, aux>>
